@@ -11,7 +11,7 @@ for S in $seeds; do
   for Q in $P ${EXTRA[$S]}; do
     git -C $R reset -q --hard HEAD
     if ! git -C $R apply --3way /verif/seeded/$S/patch.diff >/dev/null 2>&1; then echo "$S $Q PATCH-DOES-NOT-APPLY"; git -C $R reset -q --hard HEAD; continue; fi
-    out=$(timeout 1500 ./check $Q quick -no-evidence -repo $R/v8 2>&1 | grep -E "^(VIOLATION|UNCONFIRMED|INCONCLUSIVE|RESULT)")
+    out=$(timeout 1500 ./check $Q quick -no-evidence -witness 0 -repo $R/v8 2>&1 | grep -E "^(VIOLATION|UNCONFIRMED|INCONCLUSIVE|RESULT)")
     git -C $R reset -q --hard HEAD
     ex=$(echo "$out" | grep -o "exit=[0-9]*" | head -1)
     key=$(echo "$out" | grep "^VIOLATION" | head -1 | grep -o "key=[^ ]*" | cut -c1-110)
